@@ -951,27 +951,47 @@ func rulePanicContainment(r *Run) {
 			}
 		}
 		reported := false
-		for _, st := range f.Body.List {
-			ds, ok := st.(*ast.DeferStmt)
-			if !ok {
-				continue
-			}
-			lit, ok := ast.Unparen(ds.Call.Fun).(*ast.FuncLit)
-			if !ok {
-				continue
-			}
-			ast.Inspect(lit.Body, func(nd ast.Node) bool {
-				as, ok := nd.(*ast.AssignStmt)
-				if !ok || len(as.Lhs) != len(as.Rhs) {
+		if rs := deferredRecoverer(f, r.P); rs != nil {
+			if rs.Named == nil {
+				ast.Inspect(rs.Body, func(nd ast.Node) bool {
+					as, ok := nd.(*ast.AssignStmt)
+					if !ok || len(as.Lhs) != len(as.Rhs) {
+						return true
+					}
+					for k, l := range as.Lhs {
+						if id, ok := ast.Unparen(l).(*ast.Ident); ok && results[rs.Info.Uses[id]] && !isNilIdent(rs.Info, as.Rhs[k]) {
+							reported = true
+						}
+					}
 					return true
-				}
-				for k, l := range as.Lhs {
-					if id, ok := ast.Unparen(l).(*ast.Ident); ok && results[f.Info().Uses[id]] && !isNilIdent(f.Info(), as.Rhs[k]) {
-						reported = true
+				})
+			} else {
+				// defer recoverX(&err): the named function stores the error through the pointer it is given
+				ptrParams := map[types.Object]bool{}
+				for k, a := range rs.Call.Args {
+					if u, ok := ast.Unparen(a).(*ast.UnaryExpr); ok && u.Op == token.AND {
+						if id, ok := ast.Unparen(u.X).(*ast.Ident); ok && results[f.Info().Uses[id]] {
+							if sig, ok := rs.Named.Obj.Type().(*types.Signature); ok && k < sig.Params().Len() {
+								ptrParams[sig.Params().At(k)] = true
+							}
+						}
 					}
 				}
-				return true
-			})
+				ast.Inspect(rs.Body, func(nd ast.Node) bool {
+					as, ok := nd.(*ast.AssignStmt)
+					if !ok || len(as.Lhs) != len(as.Rhs) {
+						return true
+					}
+					for k, l := range as.Lhs {
+						if st, ok := ast.Unparen(l).(*ast.StarExpr); ok {
+							if id, ok := ast.Unparen(st.X).(*ast.Ident); ok && ptrParams[rs.Info.Uses[id]] && !isNilIdent(rs.Info, as.Rhs[k]) {
+								reported = true
+							}
+						}
+					}
+					return true
+				})
+			}
 		}
 		r.Check("G2", f.Name+":recovered-panic-reported", reported, f.Body.Pos(), "%s recovers a panic raised while a client message is handled and reports it as its error result: the caller ends the connection through the normal disconnect path (a swallowed panic leaves the connection running on inconsistent state)", f.Name)
 	}
@@ -1054,31 +1074,59 @@ func (r *Run) recoversBefore(g, target *Func) bool {
 }
 
 func hasDeferredRecover(f *Func) bool {
+	return deferredRecoverer(f, nil) != nil
+}
+
+// deferredRecoverer: the body that recovers for f — the literal of a `defer func(){ … recover() … }()`,
+// or the body of a named function that is deferred directly (`defer recoverX(&err)`) and calls recover()
+// itself. A recover() reached only through a further call does not stop the panic and does not count.
+// Returns the recovering function body's owner (a literal's Func or the named function).
+func deferredRecoverer(f *Func, p *Program) *recoverSite {
 	if f.Body == nil {
-		return false
+		return nil
 	}
-	found := false
-	for _, st := range f.Body.List {
-		ds, ok := st.(*ast.DeferStmt)
-		if !ok {
-			continue
-		}
-		lit, ok := ast.Unparen(ds.Call.Fun).(*ast.FuncLit)
-		if !ok {
-			continue
-		}
-		ast.Inspect(lit.Body, func(n ast.Node) bool {
+	callsRecover := func(info *types.Info, body *ast.BlockStmt) bool {
+		found := false
+		ast.Inspect(body, func(n ast.Node) bool {
+			if _, isLit := n.(*ast.FuncLit); isLit {
+				return false
+			}
 			if c, ok := n.(*ast.CallExpr); ok {
 				if id, ok := ast.Unparen(c.Fun).(*ast.Ident); ok && id.Name == "recover" {
-					if _, isB := f.Info().Uses[id].(*types.Builtin); isB {
+					if _, isB := info.Uses[id].(*types.Builtin); isB {
 						found = true
 					}
 				}
 			}
 			return true
 		})
+		return found
 	}
-	return found
+	for _, st := range f.Body.List {
+		ds, ok := st.(*ast.DeferStmt)
+		if !ok {
+			continue
+		}
+		if lit, ok := ast.Unparen(ds.Call.Fun).(*ast.FuncLit); ok {
+			if callsRecover(f.Info(), lit.Body) {
+				return &recoverSite{Body: lit.Body, Info: f.Info(), Call: ds.Call}
+			}
+			continue
+		}
+		if g, ok := calleeObj(f.Info(), ds.Call).(*types.Func); ok && f.progFuncs != nil {
+			if gd := f.progFuncs[g]; gd != nil && gd.Body != nil && callsRecover(gd.Info(), gd.Body) {
+				return &recoverSite{Body: gd.Body, Info: gd.Info(), Call: ds.Call, Named: gd}
+			}
+		}
+	}
+	return nil
+}
+
+type recoverSite struct {
+	Body  *ast.BlockStmt
+	Info  *types.Info
+	Call  *ast.CallExpr // the deferred call
+	Named *Func         // set when a named function is deferred directly
 }
 
 // hasChanOps: the function (or a literal / looked-into helper of its package is not considered
@@ -1157,6 +1205,8 @@ func ruleMainLineBlocking(r *Run) {
 					op = "send into"
 				}
 				switch {
+				case !ev.Send && r.drainGuarded(path, ev):
+					designed++ // `for len(ch) != 0 { <-ch }`: the receive only runs while the buffer holds a value
 				case ev.InSelect && ev.Fn.root().origOrSelf() == handle && ev.Depth == 0:
 					mainArms++ // the loop's own select: the one place the main line waits
 				case ev.Send && fv == sendChan:
@@ -1173,4 +1223,47 @@ func ruleMainLineBlocking(r *Run) {
 	}
 	r.Check("G7", "main-line-waits-only-in-its-select", true, handle.Body.Pos(), "%d blocking channel operations reachable from the connection loop: %d arms of the loop's select, %d designed waits", total, mainArms, designed)
 	r.Floor("G7", "arms of the connection loop's select", mainArms, 3)
+}
+
+// drainGuarded: the receive is the body of a loop whose condition is len(<the same channel>) != 0
+// (or > 0) and holds on this path: a shutdown drain, which never waits for a value.
+func (r *Run) drainGuarded(path *Path, ev Event) bool {
+	idx := -1
+	for i := range path.Events {
+		if path.Events[i].Pos == ev.Pos && path.Events[i].Kind == EvChanOp {
+			idx = i
+		}
+	}
+	if idx < 0 {
+		return false
+	}
+	want := r.P.Canon(ev.Fn, ev.Chan)
+	for j := idx - 1; j >= 0; j-- {
+		pe := path.Events[j]
+		if pe.Fn != ev.Fn {
+			continue
+		}
+		if pe.Kind != EvGuard {
+			if pe.Kind == EvCall || pe.Kind == EvAssign || pe.Kind == EvChanOp {
+				return false
+			}
+			continue
+		}
+		if pe.GKind != GFor || pe.Cond == nil || !pe.Val {
+			return false
+		}
+		be, ok := ast.Unparen(pe.Cond).(*ast.BinaryExpr)
+		if !ok || (be.Op != token.NEQ && be.Op != token.GTR) || !isZeroConst(pe.Fn.Info(), be.Y) {
+			return false
+		}
+		call, ok := ast.Unparen(be.X).(*ast.CallExpr)
+		if !ok || len(call.Args) != 1 {
+			return false
+		}
+		if b, ok := calleeObj(pe.Fn.Info(), call).(*types.Builtin); !ok || b.Name() != "len" {
+			return false
+		}
+		return r.P.Canon(pe.Fn, call.Args[0]) == want
+	}
+	return false
 }
